@@ -191,6 +191,41 @@ def run(ctx):
             evals += 1
             if o3.shape != out.shape or np.abs(o3 - out).max() > 1e-12:
                 viol.append(dict(case, kind="data_stimulate differs from stimulate"))
+            # "whatever its geometry": the geometry of the target is supplied at integrate time
+            # (trainable radius / data_set length with values that differ from the stored ones)
+            t0 = tgt[0]
+            fac = rng.choice([0.5, 1.5, 2.0])
+            for how in ("trainable radius", "data_set length"):
+                cell4 = simlib.cell_from_spec(spec)
+                with quiet():
+                    for t, c in zip(tgt, cur):
+                        cell4.select(nodes=[t]).stimulate(jnp.asarray(c))
+                    if how == "trainable radius":
+                        cell4.select(nodes=[t0]).make_trainable("radius")
+                        pr = cell4.get_parameters()
+                        pr = [{k: v_ * fac for k, v_ in d_.items()} for d_ in pr]
+                        o6 = np.asarray(jx.integrate(cell4, params=pr, delta_t=dt, voltage_solver="jaxley.thomas"))
+                        r2, l2 = list(spec.r), list(spec.l)
+                        r2[t0] = Fr(spec.r[t0]) * Fr(fac)
+                    else:
+                        ps_ = cell4.select(nodes=[t0]).data_set("length", float(spec.l[t0]) * fac, None)
+                        o6 = np.asarray(jx.integrate(cell4, param_state=ps_, delta_t=dt, voltage_solver="jaxley.thomas"))
+                        r2, l2 = list(spec.r), list(spec.l)
+                        l2[t0] = Fr(spec.l[t0]) * Fr(fac)
+                evals += 1
+                v = list(spec.v)
+                ref6 = [v]
+                for k in range(nst):
+                    i = [Fr(0)] * n
+                    for t, c in zip(tgt, cur):
+                        i[t] += Fr(c[k])
+                    sp = cablelib.CellSpec(parents, counts, r2, l2, spec.ra, spec.cm, spec.g, spec.e, v, i)
+                    v = sp.step(dt, "bwd_euler")
+                    ref6.append(v)
+                ref6 = np.asarray([[float(x) for x in col] for col in ref6]).T
+                if o6.shape != ref6.shape or np.abs(o6 - ref6).max() > 1e-7:
+                    viol.append(dict(case, kind="a stimulus does not add I*dt of charge when the geometry of its target is supplied at integrate time",
+                                     how=how, factor=fac, maxdiff=float(np.abs(o6 - ref6).max()) if o6.shape == ref6.shape else None))
             # clamp: equals the clamp value at every returned time point after the first
             cell3 = simlib.cell_from_spec(spec)
             crow = rng.randrange(n)
@@ -257,7 +292,7 @@ def run(ctx):
     for v in viol:
         v.setdefault("finding_class", None)
     return {"evaluations": evals, "distinct_nontrivial": len(distinct),
-            "rule": "A: networks with interleaved synapse types, every compartment/synapse with a distinct initial value, random sequences of record() calls on views (v, synaptic states and currents): table order and identity of each row; B: stimulated passive cells against the exact step-by-step reference (timing, charge, additivity), t_max shorter/longer, data_stimulate, clamp/data_clamp; C: clamps of synaptic states; D: Model/Index.v on sampled tables; distinct by (network, calls)",
+            "rule": "A: networks with interleaved synapse types, every compartment/synapse with a distinct initial value, random sequences of record() calls on views (v, synaptic states and currents): table order and identity of each row; B: stimulated passive cells against the exact step-by-step reference (timing, charge, additivity), t_max shorter/longer, data_stimulate, target geometry supplied at integrate time (trainable radius, data_set length), clamp/data_clamp; C: clamps of synaptic states; D: Model/Index.v on sampled tables; distinct by (network, calls)",
             "samples": samples, "violations": viol[:20], "traces_validated_against_impl": len(coq_jobs)}
 
 
